@@ -186,7 +186,9 @@ impl EventLoops {
         }
         let event_loop = Self::event_loop();
         event_loop.add_read_event(fd)?;
-        event_loop.wait_just(timeout)
+        let r = event_loop.wait_just(timeout);
+        event_loop.end_read_wait(fd);
+        r
     }
 
     /// Waiting for a write event to occur.
@@ -198,7 +200,9 @@ impl EventLoops {
         }
         let event_loop = Self::event_loop();
         event_loop.add_write_event(fd)?;
-        event_loop.wait_just(timeout)
+        let r = event_loop.wait_just(timeout);
+        event_loop.end_write_wait(fd);
+        r
     }
 
     /// Remove read and write event interests.
